@@ -45,7 +45,8 @@ def scope_locals():
 # every expression evaluates to an int or a str (bindable by SQLite)
 EXPRS = ['x', 'z', 's', 'pat', 'G', 'y.z', 'y.w.v', 'y .z', 'y. w . v', '(x+1)', '(x + G)', 'f(z)[1]', 'f(z)[2]', 'f (z) [0]', "d['k']",
          'lst[0]', 'lst[-1]', 'y.m(2)', 'y.m(x)', '(x % 3)', "('100%')", "(s + '%')", "('%s' % x)", "('a)b')", '("q\\"(")', "(')')",
-         "('$')", "d ['k']", '(y.m(lst[1]) + 1)', "('%%')", "f(z)[1].upper()", "('''t)''')", 'n0']
+         "('$')", "d ['k']", '(y.m(lst[1]) + 1)', "('%%')", "f(z)[1].upper()", "('''t)''')", 'n0',
+         "('it\\'s)')", '("a\\")b")', "(r'\\\\')", "('''a\\''')b''')", 'f(z)[x - 7 + (1)]']
 
 SAFE_STARTS = [', ', ' , ', ' and ', ' = ', ')', ' from', '\n, ', '+', ' -', " '", '', '||']
 TEXTS = ['select ', ', ', ' ', "'%'", "'%%'", "'a%b'", " like 'x%' ", '%s', '%(p1)s', '?', ':1', ':p1', "'it''s'", '"q"', '\n', ' -- c\n', 'a.b(c)[d];',
@@ -533,6 +534,8 @@ def check_regex_pins(ctx):
 
 def part_scanner(ctx, rng, pool):
     from pony.utils import parse_expr
+    import warnings
+    warnings.simplefilter('ignore', SyntaxWarning)      # compile() of character-soup expression texts
     check_regex_pins(ctx)
     strings = gen_raw_strings(rng, pool, ctx.scale(600, 8000))
     reqs = []
